@@ -56,7 +56,7 @@ as follows:
 """
 import os
 import shutil
-import urllib
+import urllib.request
 import zipfile
 
 import numpy as np
